@@ -4,8 +4,10 @@ Decided (MASK-TABLE, by finite evaluation): for __or__ and __xor__ every concret
 the flag everywhere, and the chosen side wherever the flag is True; _or_idx is folded over {0,1}^2 with the wrap-around index (-1 -> last of two);
 __invert__ negates the flag only; build conjoins flags; flatten: concrete False -> None, concrete True -> value, else self; unmask(default) selects the
 value on the flag's true side; primal_flag strips a Diff; FLAG-TABLE for the FlagOp calls used (shared with C20).
-Not decided: elementwise broadcasting of vectorised flags (JAX).
+LEADING-ALIGN: every select of value leaves by a flag (unmask, |, ^) first aligns the flag with the leaf's LEADING axes (a vectorized flag's shape is a prefix
+of the leaf shapes; jnp.where / jnp.choose broadcast from the trailing axis), through a helper found by what it computes.  Not decided: JAX's own broadcasting.
 """
+import ast
 import itertools
 
 from ..finite import Unrecognised, ev_int
@@ -41,6 +43,16 @@ def run(chk, prog):
             v, f = ret[2]
             base = classify(v, f1, f2)
             return bool(ev_int(f, env)) and base[0], base[1]
+        if is_t(ret, "treemap") and is_t(ret[1], "choose") and len(ret[2]) == 2:
+            # leaf-wise choice between the two operands: tree_map(lambda a, b: tree_choose(<idx aligned with a>, [a, b]), X, Y)  ==  choose(idx, [X, Y])
+            X, Y = ret[2]
+            ch = ret[1]
+            idx_t = ch[1]
+            if is_call(idx_t, "_leading") and len(idx_t[2]) == 2 and idx_t[2][1] == ("leaf", X):
+                idx_t = idx_t[2][0]
+            if ch[2] == ("list", (("leaf", X), ("leaf", Y))):
+                return classify(("choose", idx_t, ("list", (X, Y))), f1, f2)
+            raise Unrecognised("leaf-wise choose family")
         if is_t(ret, "choose"):
             idx = ev_int(ret[1], env)
             lst = ret[2]
@@ -145,9 +157,42 @@ def run(chk, prog):
     for conds, ret in r.returns:
         got["nodefault" if any(t == ("is", P("default"), C(None)) and p for t, p in conds) else "default"] = ret
     d = got.get("default")
-    okd = is_t(d, "treemap") and d[2] == (("attr", SELF, "value"), P("default")) and d[1] == ("where", F1, ("leaf", ("attr", SELF, "value")), ("leaf", P("default")))
+    VL = ("leaf", ("attr", SELF, "value"))
+    # the aligning helper is found by what it computes, not by its name: a static method of Mask with an arm reshape(a, shape(a) + (1,) * (ndim(b) - ndim(a)))
+    nd_ = lambda x: ("call", ("global", "jax.numpy.ndim"), (x,), ())
+    def _reshape_form(a, b):
+        return ("call", ("global", "jax.numpy.reshape"), (a, ("bin", "+", ("call", ("global", "jax.numpy.shape"), (a,), ()), ("bin", "*", ("tuple", (C(1),)), ("bin", "-", nd_(b), nd_(a))))), ())
+    helpers = {}
+    for hn, hf in M.methods.items():
+        if len(hf.args.args) == 2 and any(ast.unparse(dd) == "staticmethod" for dd in hf.decorator_list):
+            a_, b_ = (P(x.arg) for x in hf.args.args)
+            rets_ = [t for c_, t in Evaluator(prog).eval_fn(hf, M.module, M).returns]
+            if _reshape_form(a_, b_) in rets_ and a_ in rets_ and len(rets_) == 2:
+                helpers[hn] = hf
+    aligned = lambda t, leaf: (is_t(t, "call") and is_t(t[1], "attr") and t[1][2] in helpers and len(t[2]) == 2 and t[2][1] == leaf) or (is_call(t, "reshape") and len(t[2]) == 2 and t == _reshape_form(t[2][0], leaf))
+    okd = is_t(d, "treemap") and d[2] == (("attr", SELF, "value"), P("default")) and is_t(d[1], "where") and d[1][2:] == (VL, ("leaf", P("default"))) \
+        and (d[1][1] == F1 or (aligned(d[1][1], VL) and d[1][1][2][0] == F1))
     chk.require(okd and got.get("nodefault") == ("attr", SELF, "value"), "MASK-TABLE", "Mask.unmask", "value on the true side, default on the false side", derived={k: show(v) for k, v in got.items()}.__str__(),
                 expected="tree_map(where(flag, value_leaf, default_leaf), self.value, default)", where=W("unmask"))
+    # ---------------------------------------------------------------- "elementwise for vectorized flags"
+    # the shape of a vectorized flag is a PREFIX of every leaf's shape (Mask._validate_init), while jnp.where / jnp.choose broadcast from the TRAILING axis:
+    # a flag (3,) against a leaf (3, 4) raises, against a leaf (3, 3) silently selects columns.  Every select of leaves by a flag (or an index computed from
+    # flags) therefore aligns it with the leaf's leading axes first - and the aligning helper must append the missing axes at the END of the flag's shape
+    sites = []
+    if is_t(d, "treemap") and is_t(d[1], "where"):
+        sites.append(("Mask.unmask", aligned(d[1][1], VL)))
+    for meth in ("__or__", "__xor__"):
+        rr = ev.eval_fn(M.methods[meth], M.module, M)
+        for conds, ret in rr.returns:
+            for x in subterms(ret):
+                if is_t(x, "choose") and not is_t(x[1], "const"):
+                    fam = is_t(x[2], "list") and len(x[2][1]) == 2 and all(is_t(y, "leaf") for y in x[2][1])
+                    sites.append((f"Mask.{meth}", bool(fam and aligned(x[1], x[2][1][0]))))
+    bad_sites = sorted({n for n, ok_ in sites if not ok_})
+    chk.require(len(sites) >= 3 and not bad_sites, "LEADING-ALIGN", "Mask/vectorized-select", "selects of value leaves by a (vectorized) flag", derived=f"{len(sites)} select site(s); not aligned with the leaf's leading axes: {bad_sites}",
+                expected="jnp.where / tree_choose receive Mask._leading(flag_or_index, leaf) per leaf", where=W("unmask"))
+    chk.require(len(helpers) >= 1 or not bad_sites, "LEADING-ALIGN", "Mask/aligning-helper", "helper that appends the missing axes at the END of a vectorized flag's shape", derived=f"helpers found: {sorted(helpers)}",
+                expected="reshape(flag, shape(flag) + (1,) * (ndim(leaf) - ndim(flag))) for array flags of lower rank; the flag itself otherwise", where=W("unmask"))
     # primal_flag
     r = Evaluator(prog).eval_fn(M.methods["primal_flag"], M.module, M)
     got = {}
